@@ -363,9 +363,10 @@ Lemma table_ok_facts : forall t, table_ok t = true ->
   l_visible (t_modsummary_sub t) = true /\ l_visible (t_rootclasses t) = true /\ l_visible (t_subclasses_from t) = true /\
   l_visible (t_nameindex t) = true /\ l_visible (t_undocced t) = true /\ l_visible (t_alldocs t) = true /\
   l_visible (t_corpus t) = true /\ l_visible (t_inventory t) = true /\ l_visible (t_writer t) = true /\
-  l_visible (t_assemble t) = true /\ l_visible (t_overriding t) = true.
+  l_visible (t_assemble t) = true /\ l_visible (t_overriding t) = true /\
+  l_visible (t_modindex_roots t) = true /\ l_visible (t_index_roots t) = true.
 Proof.
-  intros t H. unfold table_ok in H. apply andb_prop in H. destruct H as [H _].
+  intros t H. unfold table_ok in H.
   unfold listings_of in H. cbn [forallb] in H. unfold producer_ok in H. cbn [fst snd] in H.
   repeat (apply andb_prop in H; let H1 := fresh "H" in destruct H as [H1 H]; apply andb_prop in H1; destruct H1 as [H1 _]).
   repeat split; assumption.
@@ -383,15 +384,14 @@ Proof. intros r o H. unfold is_private. rewrite H. auto. Qed.
 
 (* what every entry of the site satisfies *)
 Definition entry_inv (quote : text -> text) (tbl : table) (r : registry) (e : entry) : Prop :=
-  (wf r -> table_ok tbl = true -> (root_prod (e_prod e) = true -> roots_guard tbl r) ->
-     listing_prod (e_prod e) = true -> visible r (e_obj e) = true) /\
+  (wf r -> table_ok tbl = true -> listing_prod (e_prod e) = true -> visible r (e_obj e) = true) /\
   (wf r -> table_ok tbl = true ->
      e_ctx e = e_page e \/ own_page r (e_obj e) = true \/ raw_prod (e_prod e) = true) /\
   (markers_ok tbl = true -> marked_prod (e_prod e) = true -> priv_of r (e_obj e) = PRIVATE -> e_private e = true) /\
   (wf r -> table_ok tbl = true -> contents_prod (e_prod e) = true -> reachable r (e_obj e)).
 
 Ltac leaf := unfold entry_inv; cbn [e_page e_prod e_obj e_ctx e_private mk].
-Ltac nolisting := let H := fresh in intros _ _ _ H; vm_compute in H; discriminate H.
+Ltac nolisting := let H := fresh in intros _ _ H; vm_compute in H; discriminate H.
 Ltac nomarked := let H := fresh in intros _ H; vm_compute in H; discriminate H.
 Ltac nocontents := let H := fresh in intros _ _ H; vm_compute in H; discriminate H.
 
@@ -404,29 +404,29 @@ Lemma inv_plain : forall pg prod o, listing_prod prod = false -> marked_prod pro
   entry_inv quote tbl r (mk pg prod pg false o).
 Proof.
   intros pg prod o Hl Hm Hc. leaf. split; [|split; [|split]].
-  - intros _ _ _ H. congruence.
+  - intros _ _ H. congruence.
   - intros _ _. now left.
   - intros _ H. congruence.
   - intros _ _ H. congruence.
 Qed.
 
-Lemma inv_vis : forall pg prod o, marked_prod prod = false -> root_prod prod = false -> contents_prod prod = false ->
+Lemma inv_vis : forall pg prod o, marked_prod prod = false -> contents_prod prod = false ->
   (wf r -> table_ok tbl = true -> visible r o = true) -> entry_inv quote tbl r (mk pg prod pg false o).
 Proof.
-  intros pg prod o Hm Hr Hc Hv. leaf. split; [|split; [|split]].
-  - intros Hwf Ht _ _. now apply Hv.
+  intros pg prod o Hm Hc Hv. leaf. split; [|split; [|split]].
+  - intros Hwf Ht _. now apply Hv.
   - intros _ _. now left.
   - intros _ H. congruence.
   - intros _ _ H. congruence.
 Qed.
 
-Lemma inv_row : forall pg prod c, root_prod prod = false ->
+Lemma inv_row : forall pg prod c,
   (table_ok tbl = true -> visible r c = true) ->
   (wf r -> table_ok tbl = true -> contents_prod prod = true -> reachable r c) ->
   entry_inv quote tbl r (mk pg prod pg (t_row_uses_css tbl && css_private tbl r c) c).
 Proof.
-  intros pg prod c Hr Hv Hreach. leaf. split; [|split; [|split]].
-  - intros _ Ht _ _. now apply Hv.
+  intros pg prod c Hv Hreach. leaf. split; [|split; [|split]].
+  - intros _ Ht _. now apply Hv.
   - intros _ _. now left.
   - intros Hm _ Hp. destruct (markers_ok_facts tbl Hm) as [H1 [_ [_ [_ [H5 _]]]]].
     destruct (private_is_private r c Hp) as [_ H]. unfold css_private. now rewrite H1, H5, H.
@@ -444,7 +444,7 @@ Proof.
   assert (Hitem : forall c, (table_ok tbl = true -> visible r c = true) ->
             entry_inv quote tbl r (mk pg P_sidebar_item pg (t_sidebar_private tbl && is_private r c) c)).
   { intros c Hv. leaf. split; [|split; [|split]]; [| | |nocontents].
-    - intros _ Ht _ _. now apply Hv.
+    - intros _ Ht _. now apply Hv.
     - intros _ _. now left.
     - intros Hm _ Hp. destruct (markers_ok_facts tbl Hm) as [_ [H2 _]].
       destruct (private_is_private r c Hp) as [H _]. now rewrite H2, H. }
@@ -492,48 +492,48 @@ Proof.
       * destruct (module_of r p) as [q|] eqn:Hq; [|contradiction]. destruct Hs as [E|[]]. subst s.
         exact (wf_module_own r Hwf p q Hq).
     + apply in_flat_map in Hin. destruct Hin as [s [_ Hin]]. exact (obj_content_inv _ _ _ _ _ _ Hin).
-  - (* main table *) apply in_map_iff in Hin. destruct Hin as [c [E Hc]]. subst e. apply inv_row; [reflexivity|eauto|].
+  - (* main table *) apply in_map_iff in Hin. destruct Hin as [c [E Hc]]. subst e. apply inv_row; [eauto|].
     intros Hwf Ht _. apply (reachable_child p c); [exact (Hreachp Hwf Ht)|].
     unfold rows_of in Hc. apply filter_In in Hc. destruct Hc as [Hc _]. unfold children_of in Hc.
     destruct (kind_of r p); apply filter_In in Hc; exact (proj1 Hc).
-  - (* package init table *) apply in_map_iff in Hin. destruct Hin as [c [E Hc]]. subst e. apply inv_row; [reflexivity|eauto|].
+  - (* package init table *) apply in_map_iff in Hin. destruct Hin as [c [E Hc]]. subst e. apply inv_row; [eauto|].
     intros Hwf Ht _. apply (reachable_child p c); [exact (Hreachp Hwf Ht)|].
     unfold rows_of in Hc. apply filter_In in Hc. destruct Hc as [Hc _]. unfold pkg_init_of in Hc.
     destruct (kind_of r p); try contradiction. apply filter_In in Hc. exact (proj1 Hc).
   - (* base tables *) apply in_flat_map in Hin. destruct Hin as [x [_ Hin]].
-    apply in_map_iff in Hin. destruct Hin as [c [E Hc]]. subst e. apply inv_row; [reflexivity|eauto|nocontents].
+    apply in_map_iff in Hin. destruct Hin as [c [E Hc]]. subst e. apply inv_row; [eauto|nocontents].
   - (* base names *) apply in_flat_map in Hin. destruct Hin as [x [_ Hin]].
     apply in_map_iff in Hin. destruct Hin as [c [E Hc]]. subst e. now apply inv_plain.
   - (* member details *) apply in_map_iff in Hin. destruct Hin as [c [E Hc]]. subst e. leaf. split; [|split; [|split]]; [| | |nocontents].
-    + intros _ Ht _ _. exact (methods_visible p c Ht Hc).
+    + intros _ Ht _. exact (methods_visible p c Ht Hc).
     + intros _ _. right. right. reflexivity.
     + intros Hm _ Hpr. destruct (markers_ok_facts tbl Hm) as [H1 [_ [_ [_ [_ H6]]]]].
       destruct (private_is_private r c Hpr) as [_ H]. unfold css_private. now rewrite H1, H6, H.
   - (* class extras *) destruct (is_class_kind (kind_of r p)); [|contradiction].
     repeat (apply in_app_or in Hin; destruct Hin as [Hin|Hin]).
-    + apply in_map_iff in Hin. destruct Hin as [c [E Hc]]. subst e. apply inv_vis; [reflexivity|reflexivity|reflexivity|].
+    + apply in_map_iff in Hin. destruct Hin as [c [E Hc]]. subst e. apply inv_vis; [reflexivity|reflexivity|].
       intros _ Ht. destruct (table_ok_facts tbl Ht) as [_ [_ [_ [_ [_ [_ [_ [_ [_ [_ [_ [_ [_ [_ [_ [_ [_ [_ [H19 _]]]]]]]]]]]]]]]]]]].
       apply filter_In in Hc. exact (keep_visible _ r c H19 (proj2 Hc)).
     + apply in_map_iff in Hin. destruct Hin as [c [E Hc]]. subst e. now apply inv_plain.
     + apply in_flat_map in Hin. destruct Hin as [m [_ Hin]]. apply in_map_iff in Hin. destruct Hin as [c [E Hc]]. subst e.
       now apply inv_plain.
     + apply in_flat_map in Hin. destruct Hin as [m [_ Hin]]. apply in_map_iff in Hin. destruct Hin as [c [E Hc]]. subst e.
-      apply inv_vis; [reflexivity|reflexivity|reflexivity|].
+      apply inv_vis; [reflexivity|reflexivity|].
       intros _ Ht. destruct (table_ok_facts tbl Ht) as [_ [_ [_ [_ [_ [_ [_ [_ [_ [_ [_ [_ [_ [_ [_ [_ [_ [_ [H19 _]]]]]]]]]]]]]]]]]]].
       apply filter_In in Hc. exact (keep_visible _ r c H19 (proj2 Hc)).
     + destruct Hin as [E|[]]. subst e. leaf. split; [|split; [|split]]; [| |nomarked|nocontents].
-      * intros Hwf Ht _ _. exact (proj2 (Hpw Hwf Ht)).
+      * intros Hwf Ht _. exact (proj2 (Hpw Hwf Ht)).
       * intros _ _. now left.
 Qed.
 
 Lemma module_summary_inv : forall fuel m e,
-  (wf r -> table_ok tbl = true -> roots_guard tbl r -> visible r m = true) -> reachable r m ->
+  (table_ok tbl = true -> visible r m = true) -> reachable r m ->
   In e (module_summary fuel tbl r m) -> entry_inv quote tbl r e.
 Proof.
   induction fuel as [|f IH]; intros m e Hm Hreach Hin; [contradiction|].
   cbn [module_summary] in Hin. destruct Hin as [E|Hin].
   - subst e. leaf. split; [|split; [|split]].
-    + intros Hwf Ht Hg _. apply Hm; auto.
+    + intros _ Ht _. now apply Hm.
     + intros _ _. now left.
     + intros Hmk _ Hp. destruct (markers_ok_facts tbl Hmk) as [_ [_ [H3 _]]].
       destruct (private_is_private r m Hp) as [H _]. now rewrite H3, H.
@@ -541,7 +541,7 @@ Proof.
   - destruct (kind_of r m); try contradiction.
     apply in_flat_map in Hin. destruct Hin as [c [Hc Hin]]. apply filter_In in Hc. destruct Hc as [Hcm Hk].
     apply (IH c e); [|exact (reachable_child m c Hreach Hcm)|exact Hin].
-    intros _ Ht _. destruct (table_ok_facts tbl Ht) as [_ [_ [_ [_ [_ [_ [_ [_ [_ [H10 _]]]]]]]]]].
+    intros Ht. destruct (table_ok_facts tbl Ht) as [_ [_ [_ [_ [_ [_ [_ [_ [_ [H10 _]]]]]]]]]].
     apply andb_prop in Hk. exact (keep_visible _ r c H10 (proj2 Hk)).
 Qed.
 
@@ -564,14 +564,14 @@ Proof.
   apply in_flat_map in Hin. destruct Hin as [c [_ Hin]]. exact (IH c x Ht Hin).
 Qed.
 
-Lemma inv_raw : forall pg prod priv o, root_prod prod = false -> raw_prod prod = true ->
+Lemma inv_raw : forall pg prod priv o, raw_prod prod = true ->
   (table_ok tbl = true -> visible r o = true) ->
   (markers_ok tbl = true -> marked_prod prod = true -> priv_of r o = PRIVATE -> priv = true) ->
   (contents_prod prod = true -> reachable r o) ->
   entry_inv quote tbl r (mk pg prod [] priv o).
 Proof.
-  intros pg prod priv o Hr Hraw Hv Hm Hc. leaf. split; [|split; [|split]].
-  - intros _ Ht _ _. now apply Hv.
+  intros pg prod priv o Hraw Hv Hm Hc. leaf. split; [|split; [|split]].
+  - intros _ Ht _. now apply Hv.
   - intros _ _. right. right. exact Hraw.
   - exact Hm.
   - intros _ _. exact Hc.
@@ -591,44 +591,42 @@ Proof.
   repeat (apply in_app_or in Hin; destruct Hin as [Hin|Hin]).
   - (* moduleIndex *) apply in_flat_map in Hin. destruct Hin as [m [Hm Hin]]. apply filter_In in Hm. destruct Hm as [Hroot Hk].
     apply (module_summary_inv (fuel_of r) m e); [| |exact Hin].
-    + intros _ _ Hg. destruct Hg as [[H1 _]|Hall].
-      * exact (keep_visible _ r m H1 Hk).
-      * now apply Hall.
+    + intros Ht. destruct (table_ok_facts tbl Ht) as [_ [_ [_ [_ [_ [_ [_ [_ [_ [_ [_ [_ [_ [_ [_ [_ [_ [_ [_ [_ [H21 _]]]]]]]]]]]]]]]]]]]]].
+      exact (keep_visible _ r m H21 Hk).
     + exists m. split; [exact Hroot|apply desc_refl].
-  - (* classIndex *) apply in_map_iff in Hin. destruct Hin as [c [E Hc]]. subst e. apply inv_vis; [reflexivity|reflexivity|reflexivity|].
+  - (* classIndex *) apply in_map_iff in Hin. destruct Hin as [c [E Hc]]. subst e. apply inv_vis; [reflexivity|reflexivity|].
     intros _ Ht. unfold class_index in Hc. apply in_flat_map in Hc. destruct Hc as [root [Hroot Hc]].
     apply (subclasses_from_visible (fuel_of r) root c Ht); [|exact Hc].
     destruct (table_ok_facts tbl Ht) as [_ [_ [_ [_ [_ [_ [_ [_ [_ [_ [H11 _]]]]]]]]]]].
     apply filter_In in Hroot. destruct Hroot as [_ Hk]. unfold is_root_class in Hk.
     apply andb_prop in Hk. destruct Hk as [Hk _]. apply andb_prop in Hk. exact (keep_visible _ r root H11 (proj2 Hk)).
   - (* nameIndex *) apply in_map_iff in Hin. destruct Hin as [o [E Ho]]. subst e. leaf. split; [|split; [|split]]; [| |nomarked|nocontents].
-    + intros _ Ht _ _. destruct (table_ok_facts tbl Ht) as [_ [_ [_ [_ [_ [_ [_ [_ [_ [_ [_ [_ [H13 _]]]]]]]]]]]]].
+    + intros _ Ht _. destruct (table_ok_facts tbl Ht) as [_ [_ [_ [_ [_ [_ [_ [_ [_ [_ [_ [_ [H13 _]]]]]]]]]]]]].
       apply filter_In in Ho. exact (keep_visible _ r o H13 (proj2 Ho)).
     + intros _ _. now left.
-  - (* undoccedSummary *) apply in_map_iff in Hin. destruct Hin as [o [E Ho]]. subst e. apply inv_vis; [reflexivity|reflexivity|reflexivity|].
+  - (* undoccedSummary *) apply in_map_iff in Hin. destruct Hin as [o [E Ho]]. subst e. apply inv_vis; [reflexivity|reflexivity|].
     intros _ Ht. destruct (table_ok_facts tbl Ht) as [_ [_ [_ [_ [_ [_ [_ [_ [_ [_ [_ [_ [_ [H14 _]]]]]]]]]]]]]].
     apply filter_In in Ho. destruct Ho as [_ Hk]. apply andb_prop in Hk. exact (keep_visible _ r o H14 (proj1 Hk)).
   - (* index.html roots *) destruct (multi_root r); [|contradiction].
     apply in_map_iff in Hin. destruct Hin as [o [E Ho]]. subst e. apply filter_In in Ho. destruct Ho as [Hroot Hk].
     leaf. split; [|split; [|split]]; [| |nomarked|].
-    + intros _ _ Hg _. destruct (Hg eq_refl) as [[_ H2]|Hall].
-      * exact (keep_visible _ r o H2 Hk).
-      * now apply Hall.
+    + intros _ Ht _. destruct (table_ok_facts tbl Ht) as [_ [_ [_ [_ [_ [_ [_ [_ [_ [_ [_ [_ [_ [_ [_ [_ [_ [_ [_ [_ [_ H22]]]]]]]]]]]]]]]]]]]]].
+      exact (keep_visible _ r o H22 Hk).
     + intros _ _. now left.
     + intros _ _ _. exists o. split; [exact Hroot|apply desc_refl].
   - (* all-documents *) apply in_map_iff in Hin. destruct Hin as [o [E Ho]]. subst e. leaf. split; [|split; [|split]]; [| | |nocontents].
-    + intros _ Ht _ _. destruct (table_ok_facts tbl Ht) as [_ [_ [_ [_ [_ [_ [_ [_ [_ [_ [_ [_ [_ [_ [H15 _]]]]]]]]]]]]]]].
+    + intros _ Ht _. destruct (table_ok_facts tbl Ht) as [_ [_ [_ [_ [_ [_ [_ [_ [_ [_ [_ [_ [_ [_ [H15 _]]]]]]]]]]]]]]].
       apply filter_In in Ho. exact (keep_visible _ r o H15 (proj2 Ho)).
     + intros _ _. right. right. reflexivity.
     + intros Hm _ Hp. destruct (markers_ok_facts tbl Hm) as [_ [_ [_ [H4 _]]]].
       destruct (private_is_private r o Hp) as [_ H]. now rewrite H4, H.
   - (* search corpus *) apply in_map_iff in Hin. destruct Hin as [o [E Ho]]. subst e.
-    apply inv_raw; [reflexivity|reflexivity| |nomarked|intros H; vm_compute in H; discriminate H].
+    apply inv_raw; [reflexivity| |nomarked|intros H; vm_compute in H; discriminate H].
     intros Ht. destruct (table_ok_facts tbl Ht) as [_ [_ [_ [_ [_ [_ [_ [_ [_ [_ [_ [_ [_ [_ [_ [H16 _]]]]]]]]]]]]]]]].
     apply filter_In in Ho. exact (keep_visible _ r o H16 (proj2 Ho)).
   - (* inventory *) apply in_map_iff in Hin. destruct Hin as [o [E Ho]]. subst e.
     apply in_flat_map in Ho. destruct Ho as [root [Hroot Ho]].
-    apply inv_raw; [reflexivity|reflexivity| |nomarked|].
+    apply inv_raw; [reflexivity| |nomarked|].
     + intros Ht. exact (inventory_visible _ root o Ht Ho).
     + intros _. exists root. split; [exact Hroot|exact (inventory_desc _ root o Ho)].
 Qed.
@@ -650,10 +648,9 @@ Variable r : registry.
 
 (* C12: no entry of a listing producer is for an object that is not visible *)
 Theorem entries_visible : forall depth ns e, wf r -> table_ok tbl = true ->
-  (root_prod (e_prod e) = true -> roots_guard tbl r) ->
   In e (site_entries quote tbl r depth ns) -> listing_prod (e_prod e) = true -> visible r (e_obj e) = true.
 Proof.
-  intros depth ns e Hwf Ht Hg Hin Hl. destruct (site_entries_inv quote tbl r depth ns e Hin) as [H _]. auto.
+  intros depth ns e Hwf Ht Hin Hl. destruct (site_entries_inv quote tbl r depth ns e Hin) as [H _]. auto.
 Qed.
 
 (* C12: every listing entry of a PRIVATE object carries the marker *)
@@ -692,7 +689,7 @@ Proof.
     assert (Hcase : e_prod e = P_hierarchy \/ e_prod e = P_childlist \/ e_prod e = P_alldocs \/ e_prod e = P_corpus \/ e_prod e = P_inventory).
     { repeat (apply orb_prop in Hraw; destruct Hraw as [Hraw|Hraw]; [apply N.eqb_eq in Hraw; tauto|]). discriminate. }
     destruct Hcase as [E|[E|[E|[E|E]]]];
-      (apply (entries_visible depth ns e Hwf Ht); [rewrite E; vm_compute; discriminate|exact Hin|rewrite E; reflexivity]).
+      (apply (entries_visible depth ns e Hwf Ht); [exact Hin|rewrite E; reflexivity]).
   - rewrite (link_of_taglink e Hraw) in Hl. exact (taglink_visible _ _ _ Hf Hl).
 Qed.
 
